@@ -32,7 +32,8 @@ func init() {
 	}
 	properties["C03"] = &property{
 		ID: "C03", Level: "model_checking", Kinds: []string{"history"},
-		Harnesses: append([]harness{{Name: "gsxC03FileInfo", Pkg: "linter", Quick: map[string]int{"strlen": 3, "paths": 4000, "wall_s": 120}, MustReach: []string{"set"}}},
+		Harnesses: append([]harness{{Name: "gsxC03FileInfo", Pkg: "linter", Quick: map[string]int{"strlen": 3, "paths": 4000, "wall_s": 120}, MustReach: []string{"set"}},
+			{Name: "gsxC03RuleRunContext", Pkg: "checkers", Solver: "z3", Quick: map[string]int{"paths": 400, "wall_s": 60}, NoValidate: true, ReplayFn: replayRulePkg, MustReach: []string{"last file"}}},
 			relHarnesses([]string{"gsxHistVisit_", "gsxHistWalk_"}, "history",
 				[]map[string]int{{"K": 3, "B": 2, "strlen": 8, "paths": 300, "wall_s": 6}, {"K": 2, "B": 2, "strlen": 8, "paths": 150, "wall_s": 5}},
 				[]map[string]int{{"K": 4, "B": 2, "strlen": 8, "paths": 4000, "wall_s": 30}, {"K": 3, "B": 2, "strlen": 8, "paths": 3000, "wall_s": 25}})...),
@@ -233,6 +234,11 @@ func visitHarnesses(quick, thorough map[string]int) []harness {
 			// a default clause between two cases needs clause lists of three
 			q, t = withBound(q, "B", 3), withBound(t, "B", 3)
 		}
+		if n == "mapKey" {
+			// the checker looks for whitespace at the ends of constant string keys: the text of
+			// string constants is symbolic (<= 3 bytes) instead of the 4-entry menu
+			q, t = withBound(withBound(q, "conststr", 3), "paths", 5000), withBound(t, "conststr", 3)
+		}
 		if n == "filepathJoin" {
 			// the checker compares an import path of 13 bytes ("path/filepath"): strings must be able to be that long
 			q, t = withBound(quick, "strlen", 16), withBound(thorough, "strlen", 16)
@@ -298,4 +304,4 @@ func withBound(m map[string]int, k string, v int) map[string]int {
 
 // deeperVisit: checkers whose diagnostics need depth 4 (found by probing which
 // visit harnesses never reached a diagnostic at depth 3); their explorations are cheap.
-var deeperVisit = map[string]int{"emptyFallthrough": 4, "typeAssertChain": 4, "badCond": 4, "unlambda": 4, "sortSlice": 5, "sqlQuery": 5}
+var deeperVisit = map[string]int{"underef": 4, "emptyFallthrough": 4, "typeAssertChain": 4, "badCond": 4, "unlambda": 4, "sortSlice": 5, "sqlQuery": 5}
